@@ -88,10 +88,12 @@ PyEq(a, b) ==
 Builtins == {"len", "str", "id"}
 
 \* Exception classes the pipe operator and exists: recover from.
+\* (subclasses are caught with their bases: SubLookup is an application-defined subclass of LookupError,
+\* UnboundLocalError a builtin subclass of NameError)
 PipeCaught   == {"AttributeError", "NameError", "LookupError", "KeyError",
-                 "IndexError", "TypeError", "ValueError", "UnicodeError"}
+                 "IndexError", "TypeError", "ValueError", "UnicodeError", "SubLookup", "UnboundLocalError"}
 ExistsCaught == {"AttributeError", "NameError", "LookupError", "KeyError",
-                 "IndexError", "TypeError"}
+                 "IndexError", "TypeError", "SubLookup", "UnboundLocalError"}
 \* Classes outside Exception (never caught by on-error)
 BaseOnly     == {"KeyboardInterrupt", "SystemExit", "GeneratorExit"}
 
